@@ -100,14 +100,17 @@ impl Transport {
 
 	pub fn seek_to(&mut self, mut position: usize, num_frames: usize) {
 		if let Some((loop_start, loop_end)) = self.loop_region {
+			// wrap the position into the loop region in constant time. the result
+			// is the position that subtracting (or adding) the loop length over and
+			// over would arrive at, but a far-away target costs no more than a
+			// near one. (the loop region is never empty: see `new` and
+			// `set_loop_region`)
 			if position > self.position {
-				while position >= loop_end {
-					position -= loop_end - loop_start;
+				if position >= loop_end {
+					position = loop_start + (position - loop_start) % (loop_end - loop_start);
 				}
-			} else {
-				while position < loop_start {
-					position += loop_end - loop_start;
-				}
+			} else if position < loop_start {
+				position = loop_end - 1 - (loop_start - 1 - position) % (loop_end - loop_start);
 			}
 		}
 		self.position = position;
